@@ -484,6 +484,48 @@ class Runner(IOOpsMixin):
         keys = sorted("%d%d" % k.v for k in calc.modulus_keys)
         return {"keys": keys, "dims": list(calc.dims)}
 
+    def op_calc_edge(self, client, i, op):
+        """C12: the same calculation with DELTA_P stretched so that the LAST requested pressure lies a fraction u of one step below the top of the
+        computed range (the smallest over all temperature rows of the largest pressure on the volume grid -- read from a calculator built with the
+        client's own settings).  Inside the range, hence valid: it must complete and satisfy the invariants."""
+        import cij.core.calculator as cc
+        w = self.sc["worlds"][client]
+        base_path = os.path.join(self.root, w["datadir"], w["settings_name"])
+        saved = self.seams.ctx.client
+        self.seams.ctx.client = None          # the probe calculator is the simulator's: keep it out of the event log and of the fault plan
+        try:
+            probe = cc.Calculator(base_path)
+            p = numpy.asarray(probe.volume_base.pressures, dtype=float) * U.FACTORS[("ry/bohr3", "GPa")]
+        finally:
+            self.seams.ctx.client = saved
+        top = float(p.max(axis=1).min())
+        q = dict(W.effective_qha(w))
+        pmin, ntv = float(q["P_MIN"]), int(q["NTV"])
+        if not (numpy.isfinite(top) and top > pmin + 1e-6):
+            self.probe("edge_skipped_no_range")
+            return {}
+        w2 = copy.deepcopy(w)
+        qs = w2["settings"]["qha"]["settings"]
+        qs["DELTA_P"] = (top - pmin) / ((ntv - 1) + float(op["u"]))
+        qs.pop("DELTA_P_SAMPLE", None)
+        w2["settings_name"] = "settings_edge." + w["spelling"]
+        path = os.path.join(self.root, w["datadir"], w2["settings_name"])
+        S.write_text(path, W.settings_text(w2))
+        self.driver_writes = getattr(self, "driver_writes", set()) | {os.path.relpath(path, self.root)}
+        try:
+            calc = cc.Calculator(path)
+        except Exception as e:
+            if "O-inv" in self.oracles and not self._injected_now():
+                self.verdict("O-inv", "C12", client, i, f"calculation with the last requested pressure {op['u']} of a step below the top of the computed range "
+                             f"({top:.6g} GPa) did not complete: {type(e).__name__}: {norm_msg(e, self.root)}", where=self._where(e), config=self._cfg_summary(w))
+            raise
+        h = Handle(calc, w2, path)
+        self.handles[client][op["h"]] = h
+        self.probe("edge_of_pressure_range_checked")
+        if "O-inv" in self.oracles:
+            self._check_inv_calc(client, i, h)
+        return {"dims": list(calc.dims)}
+
     def _injected_now(self):
         """did an injected fault fire during the current attempt (so its failure is the fault's, not cij's)?"""
         c = self.seams.ctx
@@ -1039,7 +1081,7 @@ class Runner(IOOpsMixin):
 
 
 READ_ONLY_OPS = {"calc.read", "calc.new", "cli.extract", "cli.geotherm", "io.read_energy", "io.read_elast",
-                 "fill.call", "cli.fill", "cli.refill", "cli.static", "env.mutate_config", "env.chdir", "env.clutter", "calc.drop"}
+                 "fill.call", "cli.fill", "cli.refill", "cli.static", "env.mutate_config", "env.chdir", "env.clutter", "calc.drop", "calc.edge"}
 
 
 # ---------------------------------------------------------------------------
